@@ -191,6 +191,24 @@ def pipe_name_project() -> T.Dict[str, T.Any]:
         {'kind': 'exe', 'name': projgen.UNREPRESENTABLE_NAMES[0], 'srcs': ['m.c']}]})
 
 
+def odd_names_project(layout: str) -> T.Dict[str, T.Any]:
+    """Every odd-but-legal name once, as target name and as custom target output (escaping of paths)."""
+    ts: T.List[T.Dict[str, T.Any]] = []
+    kinds = ['exe', 'static', 'custom', 'shared', 'run', 'custom']
+    names = list(projgen.ODD_NAMES)
+    half = len(names) // 2
+    for i, name in enumerate(names, 1):
+        kind = kinds[i % len(kinds)]
+        t: T.Dict[str, T.Any] = {'kind': kind, 'name': name, 'subdir': '' if i <= half else 'o dd'}
+        if kind in projgen.BUILD_KINDS:
+            t['srcs'] = [f't{i}.c']
+        if kind == 'custom':
+            t['outs'] = [name + '.out', f'second{i}.txt']
+            t['bbd'] = 'true'
+        ts.append(t)
+    return projgen.normalize({'name': 'odd', 'layout': layout, 'deflib': 'shared', 'targets': ts})
+
+
 def main(chk: Check) -> None:
     quick = chk.tier == 'quick'
     rnd = random.Random(chk.seed * 1000003 + 4)
@@ -213,6 +231,8 @@ def main(chk: Check) -> None:
         p = projgen.random_project(r2, n_targets=r2.randint(3, 14), installs=False, options=False)
         bjobs.append({'id': f'B{k}', 'kind': 'proj', 'p': p})
     bjobs.append({'id': 'P0', 'kind': 'proj', 'p': pipe_name_project(), 'tag': 'target-name-with-pipe'})
+    bjobs.append({'id': 'O0', 'kind': 'proj', 'p': odd_names_project('mirror')})
+    bjobs.append({'id': 'O1', 'kind': 'proj', 'p': odd_names_project('flat')})
     dirs = bv.corpus_dirs()
     if len(dirs) > n_corpus:
         dirs = sorted(rnd.sample(dirs, n_corpus))
